@@ -704,3 +704,7 @@ PROPS["C20"]["rule"] += " Enumeration serve-many-tasks-one-not-ready: 63, 64, 65
 PROPS["C17"]["rule"] += " The overlapping requests are staggered and the fake lookups slowed down in real time (0.175 / 0.35 ms apart, 0.25 ms per lookup; the bubble's clock stands still meanwhile), so that an implementation which holds a lock across a lookup serialises them instead of wedging the bubble. A probe during which any interface is being (re-)initialised - also long after the link event that caused it - is not judged."
 
 PROPS["C17"]["rule"] += " One observed failure on its own (33 cases): a hardware address whose slice header has a nil pointer and a length of 0..32 - what a request racing with Prepare was once seen to read - must not make Apply build an option that panics when rendered or fails to encode."
+
+PROPS["C08"]["rule"] += " One case in six is not forwarding; with a configured lifetime of 0 or forwarding off the final RA is told by its position: apart from the initial RA of a connection that was being set up, exactly one multicast RA after the stop on termination and none on reload (judged when state reads take no time). A stop that arrives while the interface has no connection (torn down by a link change, not yet re-dialled) is not asked for a final RA."
+PROPS["C10"]["rule"] += " The waits between consecutive timed-out receives never shrink and the last is longer than the first."
+PROPS["C16"]["rule"] += " With a ticking clock the later options of a wildcard stanza still obey what every reading obeys (no negative lifetime, preferred <= valid, non-deprecated constant) and promise no more than the option before them."
